@@ -12,7 +12,8 @@ static uintptr_t search_key;     // key of the running lower_bound (for argument
 static int       search_active;
 static char      dbuf[1 << 20];
 static size_t    dlen;
-static long      destroyed[1 << 16];
+static long      destroyed[1 << 20];
+static long      destroy_order[1 << 20];
 static int       n_destroyed;
 
 #define VAL(p) ((uintptr_t)(p) - 1U)
@@ -52,7 +53,7 @@ static void
 destroy(void* ptr, const void* user_data)
 {
   if (user_data != &destroy_tag) ++bad_cb;
-  if (n_destroyed < (1 << 16)) destroyed[n_destroyed++] = (long)VAL(ptr);
+  if (n_destroyed < (1 << 20)) destroyed[n_destroyed++] = (long)VAL(ptr);
 }
 
 static void
@@ -276,8 +277,8 @@ main(int argc, char** argv)
     } else if (!strcmp(tok[0], "clear")) {
       n_destroyed = 0;
       zix_btree_clear(tree, destroy, &destroy_tag);
-      long order[1 << 12];
-      const int nd = n_destroyed < (1 << 12) ? n_destroyed : (1 << 12);
+      long* const order = destroy_order;
+      const int   nd    = n_destroyed;
       memcpy(order, destroyed, (size_t)nd * sizeof(long));
       qsort(destroyed, (size_t)n_destroyed, sizeof(long), cmp_long);
       printf("destroyed=[");
